@@ -11,6 +11,8 @@ import Bng.Model.FreeList
                mark <hex>          => ok                       (MarkUnavailable)
                reserve m3 <hex>    => true | false             (Reserve a specific address)
                stats               => <allocated> <available> <total> <unavailable>
+               list                => m1=<hex>,m2=<hex>,… | -   (every holding, via the snapshot hook)
+               contains <hex>      => true | false             (Pool.Contains; a function of the configuration)
     v6addr     new <basehex> <ones>                    => ok
                alloc d3 | release d3
     v6prefix   new <basehex> <ones> <dl>               => ok | invalid
@@ -43,6 +45,9 @@ structure St where
   mst : Spec.MSt := {}
   mgeo : Spec.MGeo := { g := { lo := 0, step := 1, units := 0, totalReported := 0 } }
   dl : Nat := 0
+  /-- the configured network [netLo, netLo + netSpan) (IPv4 pools) -/
+  netLo : Nat := 0
+  netSpan : Nat := 0
 
 def showAddr (kind : Kind) (dl a : Nat) : String :=
   match kind with
@@ -56,6 +61,8 @@ def showObs (kind : Kind) (dl : Nat) : Obs → String
   | .none => "none"
   | .sub k => s!"s{k}"
   | .bool b => if b then "true" else "false"
+  | .list l => if l.isEmpty then "-" else
+      ",".intercalate (l.map fun (k, a) => s!"{kind.tag}{k}={showAddr kind dl a}")
   | .stats al av tot un =>
     match kind with
     | .dhcp => s!"{al} {av} {tot} {un}"
@@ -72,6 +79,7 @@ def parseOp (kind : Kind) (toks : List String) : Option Op :=
   | .dhcp, ["release", a] => (parseHex a).map .releaseVal
   | .dhcp, ["mark", a] => (parseHex a).map .mark
   | .dhcp, ["stats"] => some .stats
+  | .dhcp, ["list"] => some .list
   | .dhcp, ["reserve", k, a] => do let k ← parseTagged 'm' k; let a ← parseHex a; pure (.reserve k a)
   | .dhcp, _ => none
   | _, ["release", k] => (parseTagged kind.tag k).map .release
@@ -79,6 +87,13 @@ def parseOp (kind : Kind) (toks : List String) : Option Op :=
   | .localp, ["owner", a] => (parseHex a).map .owner
   | .localp, ["stats"] => some .stats
   | _, _ => none
+
+def parseListing (kind : Kind) (s : String) : Option (List (Nat × Nat)) :=
+  if s == "-" then some [] else
+  (s.splitOn ",").mapM fun item =>
+    match item.splitOn "=" with
+    | [k, a] => do let k ← parseTagged kind.tag k; let a ← parseVal kind a; pure (k, a)
+    | _ => none
 
 /-- what the implementation's answer means for the abstract pool -/
 def event (kind : Kind) (op : Op) (impl : String) : Spec.MEv :=
@@ -93,9 +108,15 @@ def event (kind : Kind) (op : Op) (impl : String) : Spec.MEv :=
   -- a successful Reserve MOVES the key to the named address (its old one is given back): a forced
   -- assignment, judged for uniqueness and range but not for "same value as before"; a refusal claims nothing
   | .reserve k a, ["true"] => .pool (.forced k a)
-  | .stats, al :: av :: tot :: _ => match al.toNat?, av.toNat?, tot.toNat? with
-      | some al, some av, some tot => .statsFL al av tot
+  | .stats, [al, av, tot] => match al.toNat?, av.toNat?, tot.toNat? with
+      | some al, some av, some tot => .statsFL al av tot none
       | _, _, _ => .pool .nop
+  | .stats, [al, av, tot, un] => match al.toNat?, av.toNat?, tot.toNat?, un.toNat? with
+      | some al, some av, some tot, some un => .statsFL al av tot (some un)
+      | _, _, _, _ => .pool .nop
+  | .list, [l] => match parseListing kind l with
+      | some l => .pool (.listing l)
+      | none => .pool .nop
   | .get k, ["none"] => .pool (.looked k none)
   | .get k, [a] => match parseHex a with
       | some x => .pool (.looked k (some x))
@@ -114,7 +135,7 @@ def construct (kind : Kind) (toks : List String) : Option (St × String) :=
   | .dhcp, ["new", n, o, g, rs, re] => do
     let n ← parseHex n; let o ← o.toNat?; let g ← parseHex g; let rs ← rs.toNat?; let re ← re.toNat?
     let c : V4Cfg := { net := n, ones := o, gw := g, rs := rs, re := re }
-    pure ({ model := some (init (dhcpCfg c)),
+    pure ({ model := some (init (dhcpCfg c)), netLo := n, netSpan := 2 ^ c.hostBits,
             mgeo := v4geo c (n + 1 + rs) (c.numHosts - rs - re) [g] }, "ok")
   | .localp, ["new", n, o, g] => do
     let n ← parseHex n; let o ← o.toNat?; let g ← parseHex g
@@ -124,7 +145,8 @@ def construct (kind : Kind) (toks : List String) : Option (St × String) :=
     let n ← parseHex n; let o ← o.toNat?; let g ← parseHex g
     let c : V4Cfg := { net := n, ones := o, gw := g }
     pure ({ model := some (init (pppoeCfg c)),
-            mgeo := v4geo c (n + 1) (2 ^ c.hostBits - 1) [g, 4294967295] }, "ok")
+            mgeo := v4geo c (n + 1) (2 ^ c.hostBits - 1)
+                      ([g, 4294967295] ++ (if c.hostBits ≥ 2 then [n + 2 ^ c.hostBits - 1] else [])) }, "ok")
   | .v6addr, ["new", b, o] => do
     let b ← parseHex b; let o ← o.toNat?
     let c : V6Cfg := { base := b, ones := o }
@@ -149,6 +171,14 @@ def step (kind : Kind) (st : St) (toks : List String) (impl : String) : St × Li
     match construct kind toks with
     | some (st', o) => (st', { modelObs := o })
     | none => (st, { modelObs := "badop" })
+  | ["contains", a] =>
+    -- Pool.Contains is a function of the configuration alone
+    match kind, st.model, parseHex a with
+    | .dhcp, some _, some a =>
+      let b := IPArith.containsNet st.netLo (Nat.log2 st.netSpan) a
+      let (_, vs) := Spec.mcheck st.mgeo st.mst (.contains a st.netLo st.netSpan (impl == "true"))
+      (st, { modelObs := if b then "true" else "false", viols := vs.map fun (n, d) => (n, "none", d) })
+    | _, _, _ => (st, { modelObs := "badop" })
   | _ =>
     match st.model, parseOp kind toks with
     | some m, some op =>
